@@ -277,3 +277,162 @@ def _ancestors(node, stop):
     while p is not None and p is not stop:
         yield p
         p = getattr(p, "_parent", None)
+
+
+MCM_ = "claripy/frontend/mixin/model_cache_mixin.py"
+
+
+@rule(
+    "C15.parts",
+    props=("C15", "C12"),
+    floor=4,
+    family="SIB",
+    desc="derived composites and parts stay faithful: SolverComposite.combine reads the concrete-False flag of every "
+    "operand; children enter a composite's name table through _store_child only (so that they are checked); the merged "
+    "remainder is filed as a child only if it has variables; a child replaced by its parts is removed from every name; "
+    "ModelCacheMixin.split adds the parent's models to what a part recorded itself instead of replacing it",
+)
+def c15_parts(R):
+    tree = R.tree
+    m = tree.mod(CF)
+    cls = tree.cls(CF, "SolverComposite") if "SolverComposite" in m.classes else tree.cls(CF, "CompositeFrontend")
+    ms = util.methods_of(cls)
+    # (1) combine
+    cb = ms.get("combine")
+    if cb is None:
+        R.bad(
+            m,
+            cls,
+            f"{cls.name} inherits combine(), which re-adds the operands' constraint lists: a concrete False lives in the _unsat "
+            f"flag only, so dead.combine([live]) is satisfiable",
+            construct="combine: inherited, the unsat flag is not read",
+        )
+    else:
+        ps = [a.arg for a in cb.args.args]
+        flags = {ast.unparse(x.value) for x in ast.walk(cb) if isinstance(x, ast.Attribute) and x.attr == "_unsat" and isinstance(x.ctx, ast.Load)} | {
+            ast.unparse(x.args[0]) for x in ast.walk(cb) if isinstance(x, ast.Call) and isinstance(x.func, ast.Name) and x.func.id == "getattr" and len(x.args) >= 2 and isinstance(x.args[1], ast.Constant) and x.args[1].value == "_unsat"
+        }
+        over_others = any(isinstance(c_, ast.comprehension) and ast.unparse(c_.iter) == ps[1] and any(isinstance(t, ast.Name) and t.id in flags for t in ast.walk(c_.target)) for c_ in ast.walk(cb)) or any(
+            isinstance(c_, ast.For) and ast.unparse(c_.iter) == ps[1] and any(isinstance(t, ast.Name) and t.id in flags for t in ast.walk(c_.target)) for c_ in ast.walk(cb)
+        )
+        R.check(
+            "self" in flags and over_others,
+            m,
+            cb,
+            "combine reads the flag of self and of every other operand",
+            f"{cls.name}.combine does not read the _unsat flag of {'self' if 'self' not in flags else 'the other operands'}: a concrete "
+            f"False is in no constraint list, and dead.combine([live]) / live.combine([dead]) is satisfiable",
+            construct="combine: reads the unsat flag of every operand",
+        )
+    # (2) who writes the name table
+    n_w = 0
+    for name, fn in ms.items():
+        for st in walk_no_nested(fn):
+            tgts = st.targets if isinstance(st, ast.Assign) else []
+            for t in tgts:
+                if isinstance(t, ast.Subscript) and isinstance(t.value, ast.Attribute) and t.value.attr == "_solvers":
+                    n_w += 1
+                    R.check(
+                        name == "_store_child",
+                        m,
+                        st,
+                        f"{name}: name table written through _store_child",
+                        f"{cls.name}.{name} files a child with `{ast.unparse(st)[:60]}`, bypassing _store_child: the child never enters the "
+                        f"set of children still to be checked, and an unsatisfiable child that all inputs of a merge share went "
+                        f"unnoticed (merged.satisfiable() == True)",
+                        construct=f"{name}: direct write to the name table",
+                    )
+    R.need(n_w >= 1, "no write to the composite's name table found")
+    # (3) merged remainder with no variables
+    mg = tree.func_inlined(CF, f"{cls.name}.merge", exclude=("_store_child", "_shared_solvers"))
+    merged_results = {x.id for st in walk_no_nested(mg) if isinstance(st, ast.Assign) and isinstance(st.value, ast.Call) and isinstance(st.value.func, ast.Attribute) and st.value.func.attr == "merge" for t in st.targets for x in ast.walk(t) if isinstance(x, ast.Name)}
+    from .. import guards as _g
+
+    for c in walk_no_nested(mg):
+        if isinstance(c, ast.Call) and isinstance(c.func, ast.Attribute) and c.func.attr == "_store_child" and c.args and isinstance(c.args[0], ast.Name) and c.args[0].id in merged_results:
+            facts = [f.replace(" ", "") for f in _g.holds(c)]
+            v = c.args[0].id
+            R.check(
+                any(f in (f"{v}.variables", f"len({v}.variables)>0", f"len({v}.variables)!=0") for f in facts),
+                m,
+                c,
+                "the merged remainder is filed as a child only if it has variables",
+                f"{cls.name}.merge files the merged remainder `{v}` with _store_child without a fact that it has variables: a remainder "
+                f"that is concretely False (every alternative dead) is filed nowhere and the merged solver is unconstrained",
+                construct="merge: remainder without variables filed as a child",
+            )
+    # (4) a split child is removed from every name
+    sc = ms.get("_split_child")
+    R.need(sc is not None, "_split_child not found")
+    p_child = [a.arg for a in sc.args.args][1]
+    dels = [d for d in ast.walk(sc) if isinstance(d, ast.Delete) and any(isinstance(t, ast.Subscript) and isinstance(t.value, ast.Attribute) and t.value.attr == "_solvers" for t in d.targets)]
+    pops = [c for c in ast.walk(sc) if isinstance(c, ast.Call) and isinstance(c.func, ast.Attribute) and c.func.attr == "pop" and isinstance(c.func.value, ast.Attribute) and c.func.value.attr == "_solvers"]
+    mentions = any(isinstance(x, ast.Compare) and isinstance(x.ops[0], ast.Is) and p_child in (ast.unparse(x.left), ast.unparse(x.comparators[0])) for x in ast.walk(sc))
+    R.check(
+        bool(dels or pops) and mentions,
+        m,
+        sc,
+        "a child replaced by its parts is removed from every name it was filed under",
+        f"{cls.name}._split_child files the parts and leaves the old child under the names no part took over (a variable that "
+        f"simplification eliminated): it stays among the children next to its own parts, and split() returns parts that share "
+        f"variables and repeat conjuncts",
+        construct="_split_child: old child removed from the name table",
+    )
+    # (5) ModelCacheMixin.split
+    mm = tree.mod(MCM_)
+    sp = tree.func(MCM_, "ModelCacheMixin.split")
+    for st in ast.walk(sp):
+        if isinstance(st, ast.Assign) and any(isinstance(t, ast.Attribute) and t.attr == "_models" for t in st.targets):
+            R.bad(
+                mm,
+                st,
+                "ModelCacheMixin.split replaces the models of a part (`" + ast.unparse(st)[:60] + "`): a part that is a single `x == c` has "
+                "recorded the model x = c and marked x as enumerated while it was built; with a parent that was never solved it keeps "
+                "the marks and loses the model, and eval(x, 1) answers ()",
+                construct="split: models of a part replaced",
+            )
+    R.ok(mm, sp, "ModelCacheMixin.split examined")
+
+
+CFR_ = "claripy/frontend/constrained_frontend.py"
+
+
+@rule(
+    "C12.varsync",
+    props=("C12", "C15"),
+    floor=1,
+    family="SIB",
+    desc="`variables` of a constraint-holding frontend is the variable set of its `constraints`: a method that replaces the "
+    "constraint list (simplify) brings `variables` along - a composite files its children under their variables, and a "
+    "child that keeps listing a variable it no longer constrains is resurrected over the child that does",
+)
+def c12_varsync(R):
+    tree = R.tree
+    m = tree.mod(CFR_)
+    cls = tree.cls(CFR_, "ConstrainedFrontend")
+    n = 0
+    for name, fn in util.methods_of(cls).items():
+        if name in ("__init__", "_blank_copy", "_copy", "__setstate__", "__getstate__"):
+            continue
+        repl = [st for st in walk_no_nested(fn) if isinstance(st, ast.Assign) and any(ast.unparse(t) == "self.constraints" for t in st.targets)]
+        if not repl:
+            continue
+        n += 1
+        touches = any(
+            (isinstance(st, ast.Assign) and any(ast.unparse(t) == "self.variables" for t in st.targets))
+            or (isinstance(st, ast.Call) and isinstance(st.func, ast.Attribute) and ast.unparse(st.func.value) == "self.variables" and st.func.attr in ("update", "clear", "intersection_update", "difference_update"))
+            for st in ast.walk(fn)
+        )
+        R.check(
+            touches,
+            m,
+            repl[0],
+            f"{name}: variables follow the replaced constraints",
+            f"ConstrainedFrontend.{name} replaces self.constraints and leaves self.variables alone: a variable the new constraints no "
+            f"longer mention stays listed. SolverComposite files a child under its variables and combines children from their "
+            f"constraints, so the old child stays reachable through the stale name and is stored over the current one - "
+            f"add(SGE(x & y, 4)) [always true]; simplify(); eval(x, 1); add(z >u 1); add(y >u z); add(x <u 3): eval(y, 8) is 0..7 "
+            f"instead of 3..7",
+            construct=f"{name}: constraints replaced, variables not recomputed",
+        )
+    R.need(n >= 1, "no method replaces self.constraints any more")
